@@ -63,6 +63,10 @@ pub trait Sut: Sized + 'static {
     fn from_iter(_vs: &[Self::Val], _lo: usize, _hi: Option<usize>) -> Option<(Self, Vec<Self::H>)> {
         None
     }
+    /// `extend` without any harness-side allocation (for allocator-call counting)
+    fn extend_raw(&mut self, _vs: &[Self::Val], _lo: usize, _hi: Option<usize>) -> bool {
+        false
+    }
     /// Whole-container checks against the model sequence (stacks: len, is_empty, iteration order,
     /// size hints, cloned iterators, Debug, get(len) fail-stop). Regions: nothing.
     fn whole(&self, _model: &[(Self::H, Self::Val)], _cx: &mut Cx) -> Res {
@@ -287,6 +291,10 @@ impl<S: Spec, IC: StackIc<S::Idx>> Sut for StackSut<S, IC> {
         S::stack_extend(&mut self.s, vs, lo, hi);
         Some((before..before + vs.len()).collect())
     }
+    fn extend_raw(&mut self, vs: &[S::Val], lo: usize, hi: Option<usize>) -> bool {
+        S::stack_extend(&mut self.s, vs, lo, hi);
+        true
+    }
     fn from_iter(vs: &[S::Val], lo: usize, hi: Option<usize>) -> Option<(Self, Vec<usize>)> {
         let s: FlatStack<S::R, IC> = S::stack_from_iter(vs, lo, hi);
         Some((Self::wrap(s), (0..vs.len()).collect()))
@@ -369,6 +377,74 @@ impl<S: Spec, IC: StackIc<S::Idx>> Sut for StackSut<S, IC> {
                 }
             }
             cx.hit(Probe::iter_clone_checked);
+        }
+        // positional adaptors of the iterator (`nth`, `skip`, `step_by` may have their own fast paths)
+        if n > 0 {
+            cx.full = false;
+            cx.oob = false;
+            for k in [0usize, n / 3, n / 2, n - 1] {
+                // nth(k) yields item k, and the iterator continues with item k + 1
+                let mut it = self.s.iter();
+                let got = it.nth(k);
+                let r = match got {
+                    None => Err(Fail::new(Kind::Agree, format!("iter().nth({k}) of {n} items returned None"))),
+                    Some(item) => S::check_item(item, &model[k].1, cx).map_err(|mut f| {
+                        f.detail = format!("iter().nth({k}): {}", f.detail);
+                        f
+                    }),
+                };
+                let r = r.and_then(|_| match (it.next(), k + 1 < n) {
+                    (None, false) => Ok(()),
+                    (Some(item), true) => S::check_item(item, &model[k + 1].1, cx).map_err(|mut f| {
+                        f.detail = format!("item after iter().nth({k}): {}", f.detail);
+                        f
+                    }),
+                    (None, true) => Err(Fail::new(Kind::Agree, format!("iterator ended after nth({k}) of {n} items"))),
+                    (Some(_), false) => Err(Fail::new(Kind::Agree, format!("iterator continues after nth({k}) of {n} items"))),
+                });
+                if let Err(f) = r {
+                    cx.full = saved_full;
+                    cx.oob = saved_oob;
+                    return Err(f);
+                }
+            }
+            // skip(k) then the rest, and step_by(2), must follow the model order
+            let k = n / 2;
+            let mut seen = 0usize;
+            for (j, item) in self.s.iter().skip(k).take(n + 1).enumerate() {
+                if k + j >= n {
+                    cx.full = saved_full;
+                    cx.oob = saved_oob;
+                    return Err(Fail::new(Kind::Agree, format!("iter().skip({k}) yields more than {} items", n - k)));
+                }
+                if let Err(mut f) = S::check_item(item, &model[k + j].1, cx) {
+                    cx.full = saved_full;
+                    cx.oob = saved_oob;
+                    f.detail = format!("iter().skip({k}) position {j}: {}", f.detail);
+                    return Err(f);
+                }
+                seen += 1;
+            }
+            if seen != n - k {
+                cx.full = saved_full;
+                cx.oob = saved_oob;
+                return Err(Fail::new(Kind::Agree, format!("iter().skip({k}) yields {seen} items, expected {}", n - k)));
+            }
+            for (j, item) in self.s.iter().step_by(2).take(n + 1).enumerate() {
+                if 2 * j >= n {
+                    cx.full = saved_full;
+                    cx.oob = saved_oob;
+                    return Err(Fail::new(Kind::Agree, "iter().step_by(2) yields too many items".to_string()));
+                }
+                if let Err(mut f) = S::check_item(item, &model[2 * j].1, cx) {
+                    cx.full = saved_full;
+                    cx.oob = saved_oob;
+                    f.detail = format!("iter().step_by(2) position {j}: {}", f.detail);
+                    return Err(f);
+                }
+            }
+            cx.full = saved_full;
+            cx.oob = saved_oob;
         }
         // Debug output = bracketed list of the items' own Debug
         if n <= 24 {
